@@ -190,8 +190,11 @@ def obj_case(draw):
     proto = draw(st.sampled_from(["tcp", "udp"]))
     version = draw(st.sampled_from(["0", "0", "15.2(02)SY", "16.09.06", "9.3(8)"]))
     names = lib_port_names(6 if proto == "tcp" else 17, platform, version)
+    from lib.gen import named_anywhere
+
     pv = st.one_of(st.integers(1, 8), st.sampled_from(BOUNDARY), st.integers(1, 65535),
-                   st.sampled_from(sorted(set(names.values()))))
+                   st.sampled_from(sorted(set(names.values()))),
+                   st.sampled_from(named_anywhere()))  # numbers that carry a name in SOME table, maybe not in this one
     op = draw(st.sampled_from(["eq", "eq", "neq", "lt", "gt", "range", "range"]))
     if op in ("eq", "neq"):
         n = draw(st.integers(1, 10)) if platform == "ios" else 1
